@@ -97,7 +97,13 @@ func (ix *funcIndex) assignedIn(v *types.Var, from, to token.Pos) bool {
 }
 
 // directDef: statement s defines v as a whole; returns the roots of the value assigned
-func (c *fctx) directDef(s ast.Stmt, v *types.Var) (rootSet, bool) {
+func (c *fctx) directDef(s ast.Stmt, v *types.Var, onlyDirect bool) (rootSet, bool) {
+	val := c.valueRoots
+	res := c.callResultRoots
+	if onlyDirect {
+		val = c.directRootsOf
+		res = c.callResultDirect
+	}
 	switch x := s.(type) {
 	case *ast.AssignStmt:
 		if x.Tok != token.ASSIGN && x.Tok != token.DEFINE {
@@ -112,14 +118,14 @@ func (c *fctx) directDef(s ast.Stmt, v *types.Var) (rootSet, bool) {
 				continue
 			}
 			if len(x.Rhs) == len(x.Lhs) {
-				return c.valueRoots(x.Rhs[k]), true
+				return val(x.Rhs[k]), true
 			}
 			if len(x.Rhs) == 1 {
 				if call, ok := unparen(x.Rhs[0]).(*ast.CallExpr); ok {
-					return c.callResultRoots(call, k), true
+					return res(call, k), true
 				}
 				if k == 0 {
-					return c.valueRoots(x.Rhs[0]), true
+					return val(x.Rhs[0]), true
 				}
 				return rootSet{}, true
 			}
@@ -139,10 +145,10 @@ func (c *fctx) directDef(s ast.Stmt, v *types.Var) (rootSet, bool) {
 				case len(vs.Values) == 0:
 					return rootSet{}, true // zero value
 				case len(vs.Values) == len(vs.Names):
-					return c.valueRoots(vs.Values[k]), true
+					return val(vs.Values[k]), true
 				default:
 					if call, ok := unparen(vs.Values[0]).(*ast.CallExpr); ok {
-						return c.callResultRoots(call, k), true
+						return res(call, k), true
 					}
 				}
 			}
@@ -205,7 +211,7 @@ func (c *fctx) reachingDefOpt(v *types.Var, id *ast.Ident, withCaptured bool) (r
 				continue // child is a case expression etc.
 			}
 			for j := idx - 1; j >= 0; j-- {
-				if rs, ok := c.directDef(list[j], v); ok {
+				if rs, ok := c.directDef(list[j], v, !withCaptured); ok {
 					return done(rs, list[j].End())
 				}
 				if ix.assignedIn(v, list[j].Pos(), list[j].End()) {
@@ -217,7 +223,7 @@ func (c *fctx) reachingDefOpt(v *types.Var, id *ast.Ident, withCaptured bool) (r
 		switch x := node.(type) {
 		case *ast.IfStmt:
 			if x.Init != nil && child != ast.Node(x.Init) {
-				if rs, ok := c.directDef(x.Init, v); ok {
+				if rs, ok := c.directDef(x.Init, v, !withCaptured); ok {
 					return done(rs, x.Init.End())
 				}
 				if ix.assignedIn(v, x.Init.Pos(), x.Init.End()) {
@@ -226,7 +232,7 @@ func (c *fctx) reachingDefOpt(v *types.Var, id *ast.Ident, withCaptured bool) (r
 			}
 		case *ast.SwitchStmt:
 			if x.Init != nil && child != ast.Node(x.Init) {
-				if rs, ok := c.directDef(x.Init, v); ok {
+				if rs, ok := c.directDef(x.Init, v, !withCaptured); ok {
 					return done(rs, x.Init.End())
 				}
 			}
@@ -241,7 +247,7 @@ func (c *fctx) reachingDefOpt(v *types.Var, id *ast.Ident, withCaptured bool) (r
 				return nil, false
 			}
 			if x.Init != nil {
-				if rs, ok := c.directDef(x.Init, v); ok {
+				if rs, ok := c.directDef(x.Init, v, !withCaptured); ok {
 					return done(rs, x.Init.End())
 				}
 			}
